@@ -33,10 +33,17 @@ Definition pts_eqb (a b : list sobs) : bool :=
 Definition traces_eqb (m o : list (list sobs * list sobs)) : bool :=
   list_eqb (fun x y => pts_eqb (fst x) (fst y) && pts_eqb (snd x) (snd y)) m o.
 
-Definition all_streams_ok (kinds : list ikind) (h : list op) (o : list (list sobs * list sobs)) : bool :=
-  Nat.eqb (length kinds) (length o) &&
-  forallb (fun ixo => stream_ok (class_of (snd (fst ixo))) (fst (fst ixo)) h (fst (snd ixo)) (snd (snd ixo)))
-          (combine (enum_from 0 kinds) o).
+(** per stream: 0 = satisfies the property, 1 = instance of finding F-C08-1 (an asynchronous
+    stream whose reader collected with a cancelled context while callbacks were registered, and
+    whose points are exactly what the leaky reading predicts), 2 = violation *)
+Definition stream_verdict (x : ikind) (i : nat) (h : list op) (dtr ctr : list sobs) : N :=
+  if stream_ok false (class_of x) i h dtr ctr then 0
+  else if is_async x && negb (calm true (normalize h []) && calm false (normalize h [])) &&
+          stream_ok true (class_of x) i h dtr ctr then 1 else 2.
+
+Definition verdicts (kinds : list ikind) (h : list op) (o : list (list sobs * list sobs)) : list N :=
+  map (fun ixo => stream_verdict (snd (fst ixo)) (fst (fst ixo)) h (fst (snd ixo)) (snd (snd ixo)))
+      (combine (enum_from 0 kinds) o).
 
 Definition flag (b : bool) (code : N) : list N := if b then [] else [code].
 
@@ -45,11 +52,15 @@ Definition check_case (c : case) : list N :=
   | CExpo maxsize meas obs => flag (expo_ok maxsize meas obs) V_SPECFAIL
   | CHist kinds h obs errs =>
       let m := model kinds 0 (fun n => N.of_nat (S n)) h in
+      let vs := verdicts kinds h obs in
+      let hn := normalize h [] in
       flag (traces_eqb m obs) V_MISMATCH ++
-      (* each reader's Collect reports an error exactly in its cycles in which a registered callback failed *)
-      flag (all_streams_ok kinds h obs &&
-            list_eqb Bool.eqb (fst errs) (errs_of true h []) && list_eqb Bool.eqb (snd errs) (errs_of false h [])) V_SPECFAIL ++
-      flag (all_streams_ok kinds h m) V_MODELSPEC
+      (* each reader's Collect reports an error exactly in its cycles in which a registered callback
+         failed or the context was cancelled (with a callback registered) *)
+      (if negb (Nat.eqb (length kinds) (length obs)) || existsb (N.eqb 2) vs ||
+          negb (list_eqb Bool.eqb (fst errs) (errs_of true hn []) && list_eqb Bool.eqb (snd errs) (errs_of false hn []))
+       then [V_SPECFAIL] else if existsb (N.eqb 1) vs then [V_KNOWN 1] else []) ++
+      flag (forallb (fun v => negb (v =? 2)) (verdicts kinds h m)) V_MODELSPEC
   end.
 
 Definition run (cs : list case) : list (N * N) := index_from 0 check_case cs.
